@@ -270,6 +270,16 @@ FROZEN_LOOPS = {
 
 def check_loops(ctx, long_polls):
     prog = ctx.prog
+    # an attempt that waits for ever on a lock neither ends nor reports: the lock discipline of C12 (order Account -> Endpoint, no
+    # re-acquisition of a held class) is a necessary condition of `ends in bounded time` here too
+    ctx.rule("L1", "lock order Account -> Endpoint at every acquisition (shared with C12.L1)")
+    ctx.rule("L2", "no acquisition of a lock class the task may already hold (shared with C12.L2)")
+    from .c12 import lock_rules
+    lock_rules(ctx)
+    # a step `failed` also when its hook process was killed: the exit-status rule of C10.R2 (shared)
+    R8 = ctx.rule("R8", "a hook counts as succeeded only when its exit status is success() (or allow_failure): signal deaths are failures (shared with C10.R2)")
+    from .c10 import status_rule
+    status_rule(ctx, R8)
     R6 = ctx.rule("R6", "every loop reachable from renew_certificate is finite-iterator-driven, an await loop, or a frozen loop whose bound argument is checked; no recursion")
     reach = prog.reach([RUN + "::{closure#0}"])
     rec = recursive_sccs(prog, reach)
